@@ -125,6 +125,7 @@ def check_config(cfg):
             require(ok and tuple(exps) == mono, "names:wrong-monomial:custom-names" + stage, "column %d holds %r but is named %r (input names %r)" % (j, mono, name, custom), facts)
 
     check_custom(list(ef.get_feature_names_out(custom)), custom)
+    check_custom([str(v) for v in ef.get_feature_names_out(np.array(custom))], custom, ":names-as-numpy-array")      # scikit-learn documents array-like of str
     # the answer is a function of the names GIVEN NOW: further calls with other names, each list a temporary released after its call
     # (a later list may well sit at the address of an earlier one), and one list object edited in place between two calls
     for r in range(3):
